@@ -1,0 +1,113 @@
+//go:build verif
+
+package vm
+
+import (
+	"fmt"
+	"strings"
+	"unsafe"
+
+	"github.com/elk-language/elk/value"
+)
+
+// Verification hook (properties C13 and C10): drives the real value-stack, call-frame and
+// upvalue functions of a real Thread one micro-operation at a time, so that the Coq machine
+// model (coq/Model/C10_Stack.v in the verification framework) can be replayed against them.
+// Thin wrappers only; no logic of its own besides formatting.
+type VerifC13 struct {
+	t       *Thread
+	handles []*Upvalue // what closures would hold
+	fns     map[int]*BytecodeFunction
+}
+
+// A Thread whose value stack has exactly `slots` slots.
+func NewVerifC13(slots int) *VerifC13 {
+	t := New()
+	stack := make([]value.Value, slots)
+	stack[len(stack)-1] = value.MakeSentinelValue()
+	t.stack = stack
+	t.sp = uintptr(unsafe.Pointer(&stack[0]))
+	t.fp = uintptr(unsafe.Pointer(&stack[0]))
+	return &VerifC13{t: t, fns: map[int]*BytecodeFunction{}}
+}
+
+func (m *VerifC13) fn(params int) *BytecodeFunction {
+	f, ok := m.fns[params]
+	if !ok {
+		f = &BytecodeFunction{parameterCount: params, Instructions: []byte{0}}
+		m.fns[params] = f
+	}
+	return f
+}
+
+func verifC13Int(v value.Value) int64 {
+	if v.IsSmallInt() {
+		return int64(v.AsSmallInt())
+	}
+	if v == value.MakeSentinelValue() {
+		return -7
+	}
+	return 0
+}
+
+func (m *VerifC13) Cap() int             { return len(m.t.stack) }
+func (m *VerifC13) SpOff() int           { return m.t.spOffset() }
+func (m *VerifC13) FpOff() int           { return m.t.fpOffset() }
+func (m *VerifC13) Frames() int          { return m.t.cfpOffset() }
+func (m *VerifC13) Handles() int         { return len(m.handles) }
+func (m *VerifC13) Push(v int64)         { m.t.push(value.SmallInt(v).ToValue()) }
+func (m *VerifC13) Pop()                 { m.t.pop() }
+func (m *VerifC13) GetLocal(i int) int64 { return verifC13Int(m.t.getLocalValue(i)) }
+func (m *VerifC13) SetLocal(i int, v int64) {
+	m.t.setLocalValue(i, value.SmallInt(v).ToValue())
+}
+func (m *VerifC13) Capture(i int) {
+	m.handles = append(m.handles, m.t.captureUpvalue(m.t.fpAdd(i)))
+}
+func (m *VerifC13) GetUp(h int) int64    { return verifC13Int(m.handles[h].Get()) }
+func (m *VerifC13) SetUp(h int, v int64) { m.handles[h].Set(value.SmallInt(v).ToValue()) }
+
+// CLOSE_UPVALUES_TO i
+func (m *VerifC13) Close(i int) { m.t.opCloseUpvalues(m.t.fpAddRaw(uintptr(i))) }
+
+// callBytecodeFunction of a method with n-1 parameters and n-1 arguments (+ self)
+func (m *VerifC13) Call(n int) { m.t.callBytecodeFunction(m.fn(n-1), n-1) }
+func (m *VerifC13) Ret()       { m.t.restoreLastFrame() }
+func (m *VerifC13) Grow()      { m.t.growValueStack() }
+
+// callBytecodeFunctionTCO of a method with n-1 parameters; lc is the local count the running
+// code established with PREP_LOCALS (vm.localCount)
+func (m *VerifC13) TailCall(n int, lc int) {
+	m.t.localCount = lc
+	m.t.callBytecodeFunctionTCO(m.fn(n-1), n-1)
+}
+
+// cap|sp|fp|saved frame pointers (innermost first)|live slots|open list (slot offsets, head
+// first)|handles (o<slot offset> / c<closed value>)
+func (m *VerifC13) View() string {
+	t := m.t
+	var b strings.Builder
+	fmt.Fprintf(&b, "%d|%d|%d|", len(t.stack), t.spOffset(), t.fpOffset())
+	base := uintptr(unsafe.Pointer(&t.stack[0]))
+	cs := t.callStack()
+	for i := len(cs) - 1; i >= 0; i-- {
+		fmt.Fprintf(&b, "%d ", int(cs[i].fp-base)/int(value.ValueSize))
+	}
+	b.WriteByte('|')
+	for i := 0; i < t.spOffset(); i++ {
+		fmt.Fprintf(&b, "%d ", verifC13Int(t.stack[i]))
+	}
+	b.WriteByte('|')
+	for u := t.openUpvalueHead; u != nil; u = u.next {
+		fmt.Fprintf(&b, "%d ", int(uintptr(unsafe.Pointer(u.slot))-base)/int(value.ValueSize))
+	}
+	b.WriteByte('|')
+	for _, u := range m.handles {
+		if u.IsOpen() {
+			fmt.Fprintf(&b, "o%d ", int(uintptr(unsafe.Pointer(u.slot))-base)/int(value.ValueSize))
+		} else {
+			fmt.Fprintf(&b, "c%d ", verifC13Int(u.closed))
+		}
+	}
+	return b.String()
+}
